@@ -12,23 +12,22 @@ use crate::variables::views::ViewRaw;
 
 impl Model {
     pub fn int2float(&mut self, int_var: VarId, float_var: VarId) {
-        // Get bounds of integer variable
-        let int_min = int_var.min_raw(&self.vars);
-        let int_max = int_var.max_raw(&self.vars);
-        
-        // Convert to float bounds
-        let float_min = match int_min {
-            Val::ValI(i) => Val::ValF(i as f64),
-            Val::ValF(f) => Val::ValF(f.floor()), // Just in case
-        };
-        let float_max = match int_max {
-            Val::ValI(i) => Val::ValF(i as f64),
-            Val::ValF(f) => Val::ValF(f.ceil()), // Just in case
-        };
-        
-        // Constrain float variable to integer bounds
-        self.props.greater_than_or_equals(float_var, float_min);
-        self.props.less_than_or_equals(float_var, float_max);
+        // Get bounds of integer variable (an empty integer domain has none: validation reports it)
+        if let Some((int_min, int_max)) = self.operand_bounds(int_var) {
+            // Convert to float bounds
+            let float_min = match int_min {
+                Val::ValI(i) => Val::ValF(i as f64),
+                Val::ValF(f) => Val::ValF(f.floor()), // Just in case
+            };
+            let float_max = match int_max {
+                Val::ValI(i) => Val::ValF(i as f64),
+                Val::ValF(f) => Val::ValF(f.ceil()), // Just in case
+            };
+
+            // Constrain float variable to integer bounds
+            self.props.greater_than_or_equals(float_var, float_min);
+            self.props.less_than_or_equals(float_var, float_max);
+        }
         
         // Ensure float_var = int_var exactly by creating a float view of int_var
         // Convert int_var to a float variable by adding 0.0
